@@ -331,6 +331,14 @@ theorem C07_string_roundtrip (s : List Char) : unescQ (escQ s) = s := by
   simp only [escQ, h, if_true]
   exact unescQ_escape s
 
+/-- **Constants are printed as the scanner's keywords**: the words both printers (`EXPR__out`, `EXPRstring`) write for PI and
+e are looked up in the scanner's keyword table (regenerated from lexact.c) and give the constants' tokens; so the constant is
+read back as the constant.  (Refuted by the unrepaired code, which wrote `E` — an identifier — for `CONST_E`; repaired, C07-14.) -/
+theorem C07_constants_keywords :
+    (∀ s ∈ ExpPrec.constSpellings, lookup2 s.2.2 ExpPrec.scannerKeywords = some ("TOK_" ++ s.1))
+      ∧ litToks .pi = [.kw "PI"] ∧ litToks .e = [.kw "CONST_E"] ∧ kwLit "PI" = some .pi ∧ kwLit "CONST_E" = some .e := by
+  refine ⟨by decide, ?_, ?_, rfl, rfl⟩ <;> simp [litToks]
+
 /-- a binary literal is printed from the field the parser stored it in -/
 theorem C07_binary_literal (s : String) : litToks (.bin s) = [.bin s] := by
   have h : ExpPrec.binaryPrintedFrom = ExpPrec.binaryStoredIn := by decide
